@@ -381,7 +381,20 @@ class Gen:
             # function-local static / thread-local counter
             n, t = self.fresh("st"), r.choice(UINTS)
             sc["ints"][n] = t
-            return [s_static(n, T(t), i_e(self.lit_for(t, small=True)), n, thread=r.random() < 0.3), s_asg("+=", var(n), self.lit_for(t, small=True)), s_obs(var(n))]
+            th = r.random() < 0.3
+            out = [s_static(n, T(t), i_e(self.lit_for(t, small=True)), n, thread=th)]
+            more = []
+            if r.random() < 0.6:
+                # further declarators of the same declaration, with and without an initialiser of their own: each object gets
+                # its own initial value, zero if it has none (6.7.9p10) - seed c01-j
+                for _ in range(r.randrange(1, 3)):
+                    m = self.fresh("st")
+                    d = s_static(m, T(t), i_e(self.lit_for(t, small=True)) if r.random() < 0.4 else None, m, thread=th)
+                    d["join"] = True
+                    out.append(d)
+                    more.append(m)
+                    sc["ints"][m] = t
+            return out + [s_asg("+=", var(n), self.lit_for(t, small=True)), s_obs(var(n))] + [s_obs(var(m)) for m in more]
         if k < 0.55:
             # automatic array with a (possibly partial) brace initialiser: run-time initialisation code
             a, t, ln = self.fresh("la"), r.choice(ALL), r.randrange(1, 7)
@@ -842,10 +855,18 @@ class Gen:
                                                ("e", T("uint"), 31), ("f", T("uint"), 1), ("g", T("ullong"), 33), ("h", T("ullong"), 40)]))
             # (a 64-bit unit is not closed by a second field: one of the two would be narrower than 33 bits, and the promoted
             # type of such a field is where gcc (int) and clang/cproc (its declared type) differ)
+        pt = None
         for _ in range(r.randrange(2, 6)):
             n, t = self.fresh("g"), r.choice(ALL)
-            self.globals.append(s_decl(n, T(t), i_e(self.lit_for(t))))
+            if pt is not None and r.random() < 0.3:
+                t = pt                         # a further declarator of the previous file-scope declaration
+                d = s_decl(n, T(t), i_e(self.lit_for(t)) if r.random() < 0.6 else None)
+                d["join"] = True
+            else:
+                d = s_decl(n, T(t), i_e(self.lit_for(t)))
+            self.globals.append(d)
             g["ints"][n] = t
+            pt = t
         for _ in range(r.randrange(1, 3)):
             n, t, ln = self.fresh("a"), r.choice(ALL), r.randrange(2, 6)
             self.globals.append(s_decl(n, A(T(t), ln), i_list([i_e(self.lit_for(t)) for _ in range(r.randrange(1, ln + 1))])))
